@@ -342,9 +342,111 @@ fn c16_random() -> impl Strategy<Value = Probe> {
     })
 }
 
+/// behavioural twin: the value the server *runs with*, measured on a server built from the loaded configuration
+#[derive(Debug, Clone, Serialize, Deserialize)]
+pub struct Behaviour {
+    pub via_env: bool,
+    pub fault: u8,
+    pub batch_size: u8,
+}
+
+fn check_behaviour(ctx: &mut Ctx, b: &Behaviour) -> Res {
+    use crate::srvlab::{install_logger, Lab, StepErr};
+    use roughenough::config::{is_valid_config, make_config};
+    install_logger(log::LevelFilter::Off);
+    ctx.eval();
+    let settings: Vec<(String, String)> = vec![("interface".into(), "127.0.0.1".into()), ("port".into(), "8686".into()), ("seed".into(), GOOD_SEED.into()), ("fault_percentage".into(), b.fault.to_string()), ("batch_size".into(), b.batch_size.to_string())];
+    let dir = scratch_dir("c16b");
+    let arg = if b.via_env {
+        for (k, v) in &settings {
+            std::env::set_var(format!("ROUGHENOUGH_{}", k.to_uppercase()), v);
+        }
+        "ENV".to_string()
+    } else {
+        let path = dir.join("b.cfg");
+        std::fs::write(&path, settings.iter().map(|(k, v)| format!("{}: {}\n", k, v)).collect::<String>()).unwrap();
+        path.display().to_string()
+    };
+    let cfg = no_unwind(|| make_config(&arg));
+    if b.via_env {
+        for (k, _) in &settings {
+            std::env::remove_var(format!("ROUGHENOUGH_{}", k.to_uppercase()));
+        }
+    }
+    let _ = std::fs::remove_dir_all(&dir);
+    let cfg = match cfg {
+        Ok(Ok(c)) if is_valid_config(c.as_ref()) => c,
+        _ => return Ok(()), // refusing is C15's business
+    };
+    let src = if b.via_env { "env" } else { "file" };
+    let mut lab = match Lab::with_config(cfg.as_ref(), 48) {
+        Ok(l) => l,
+        Err(e) => return ctx.fail("server-new-failed", e),
+    };
+    let pk = lab.pk.clone();
+    let (mut total, mut failed) = (0u64, 0u64);
+    let mut max_batch = 0usize;
+    let mut k = 0u64;
+    while total < 2_400 {
+        // bursts of 130 classic requests: full batches have exactly batch_size members
+        let mut sends = vec![];
+        let mut reqs = vec![];
+        for j in 0..130usize {
+            k += 1;
+            let r = fresh_request(Proto::Classic, b"c16b", k);
+            sends.push((j % 48, r.clone()));
+            reqs.push(r);
+        }
+        let res = match lab.step(&sends, 130) {
+            Ok(r) => r,
+            Err(StepErr::Panic(p)) => return ctx.fail(format!("process-events-panic|{}", panic_site(&p)), p),
+            Err(StepErr::Wedged(m)) => return ctx.fail("wedged", m),
+        };
+        let mut by_srep: std::collections::HashMap<Vec<u8>, usize> = std::collections::HashMap::new();
+        for (sock, replies) in res.replies.iter().enumerate() {
+            for r in replies {
+                total += 1;
+                let mine: Vec<&Vec<u8>> = sends.iter().filter(|s| s.0 == sock).map(|s| &s.1).collect();
+                match mine.iter().find_map(|q| verify_strict(Proto::Classic, q, r, &pk).ok()) {
+                    Some(info) => *by_srep.entry(info.srep).or_insert(0) += 1,
+                    None => failed += 1,
+                }
+            }
+        }
+        max_batch = max_batch.max(by_srep.values().copied().max().unwrap_or(0));
+    }
+    let p = b.fault as f64 / 100.0;
+    let n = total as f64;
+    let sigma = (n * p * (1.0 - p)).sqrt();
+    if (failed as f64 - n * p).abs() > 6.0 * sigma + 1.0 {
+        return ctx.fail(
+            format!("effective-behaviour-differs-from-written|{}|fault_percentage", src),
+            format!("{} source: fault_percentage written as {} and accepted, but {} of {} replies of the server built from that configuration were invalid (expected {:.0} +- {:.0})", src, b.fault, failed, total, n * p, 6.0 * sigma),
+        );
+    }
+    // with faults on, corrupted replies drop out of their batch; only assert the upper bound then
+    if max_batch > b.batch_size as usize || (b.fault == 0 && max_batch != b.batch_size.min(130) as usize) {
+        return ctx.fail(
+            format!("effective-behaviour-differs-from-written|{}|batch_size", src),
+            format!("{} source: batch_size written as {} and accepted, but the largest batch observed under 130-request bursts had {} members", src, b.batch_size, max_batch),
+        );
+    }
+    ctx.class(&format!("c16:behaviour:{}:fault={}:batch={}", src, b.fault, b.batch_size));
+    ctx.nontrivial(&(b.via_env, b.fault, b.batch_size));
+    Ok(())
+}
+
 pub fn run_c16(ctx: &mut Ctx) -> Vec<Violation> {
     let t = ctx.tier;
     let mut out = vec![];
+    // behavioural twin for the two settings whose effect is observable on the wire
+    let mut beh = vec![];
+    for via_env in [false, true] {
+        for (fault, bs) in [(0u8, 64u8), (1, 1), (10, 2), (25, 7), (49, 63), (50, 64), (50, 16), (0, 1), (0, 33)] {
+            beh.push(Behaviour { via_env, fault, batch_size: bs });
+        }
+    }
+    out.extend(run_enum(ctx, "behaviour", beh.len() as u64, |i| beh[i as usize].clone(), |ctx, b| check_behaviour(ctx, b)));
     let grid = c16_grid();
     let v = run_enum(ctx, "grid", grid.len() as u64, |i| grid[i as usize].clone(), |ctx, p| check_probe(ctx, p));
     if v.is_empty() && ctx.shard == 0 {
@@ -396,6 +498,7 @@ fn c16_real_server_spot(ctx: &mut Ctx) -> Vec<Violation> {
 pub fn replay_c16(ctx: &mut Ctx, sub: &str, case: &Value) -> Res {
     match sub {
         "grid" | "random" => replay_case::<Probe, _>(ctx, case, |ctx, p| check_probe(ctx, p)),
+        "behaviour" => replay_case::<Behaviour, _>(ctx, case, |ctx, b| check_behaviour(ctx, b)),
         _ => Err(viol("bad-replay-file", format!("sub {} is replayed by re-running the check", sub))),
     }
 }
@@ -886,7 +989,8 @@ pub fn run_c18(ctx: &mut Ctx) -> Vec<Violation> {
 pub fn replay_c18(ctx: &mut Ctx, _sub: &str, case: &Value) -> Res {
     // schedules are not replayable: re-run the plan up to 20 times
     let c: Campaign = serde_json::from_value(case.clone()).map_err(|e| viol("bad-replay-file", e.to_string()))?;
-    for _ in 0..20 {
+    // `rv replay` (strict) insists; the regression tier of every run tries each saved plan twice
+    for _ in 0..(if ctx.strict { 20 } else { 2 }) {
         check_campaign(ctx, &c)?;
     }
     Ok(())
@@ -1168,7 +1272,7 @@ pub fn run_c19(ctx: &mut Ctx) -> Vec<Violation> {
 
 pub fn replay_c19(ctx: &mut Ctx, _sub: &str, case: &Value) -> Res {
     let p: SignalPlan = serde_json::from_value(case.clone()).map_err(|e| viol("bad-replay-file", e.to_string()))?;
-    for _ in 0..10 {
+    for _ in 0..(if ctx.strict { 10 } else { 1 }) {
         check_signal(ctx, &p)?;
     }
     Ok(())
